@@ -1,5 +1,6 @@
 import PycommModel.OpsPath
 import PycommModel.Logix.Kernels
+import PycommModel.Logix.Client
 namespace Pycomm
 open Sexp Lgx.K
 
@@ -94,6 +95,78 @@ def opKUpload : List Sexp → String
           let cyc := if sc.isEmpty then [] else (List.range (is'.length + 1)).map fun i => sc.getD (i % sc.length) 1
           "ok " ++ renderNats (upload is' cyc (is'.length + 1) 0)
       | _, _ => "bad-args"
+  | _ => "bad-args"
+
+/-! ### client request messages (Logix/Client.lean) -/
+
+def pathOf (t inst u : Sexp) : Option (Except Exn (Option Bytes)) :=
+  match Sexp.name? t, Sexp.toNat? inst, bool? u with
+  | some t', some i, some u' => some (Path.tagRequestPath t' (if i == 0 then none else some i) u')
+  | _, _, _ => none
+
+def withPath (t inst u : Sexp) (k : Bytes → String) : String :=
+  match pathOf t inst u with
+  | none => "bad-args"
+  | some (.error e) => "err " ++ e.render
+  | some (.ok none) => "ok N"
+  | some (.ok (some p)) => k p
+
+def handle? (h : Sexp) : Option (Option Nat) :=
+  match h with
+  | .atom "nil" => some none
+  | x => (Sexp.toNat? x).map some
+
+def bitOps? (ops : List Sexp) : Option (List (Nat × Bool)) :=
+  ops.mapM fun o => match o with
+    | .list [b, v] => do pure ((← Sexp.toNat? b), (← bool? v))
+    | _ => none
+
+/-- k.msg <kind> "tag" inst useIds … : the message-router request the packet class builds -/
+def opKMsg : List Sexp → String
+  | [.atom "read", t, i, u, n] =>
+      match Sexp.toNat? n with
+      | some n' => withPath t i u fun p => "ok " ++ (Sexp.ofBytes (Lgx.Cl.readMsg p n')).render
+      | none => "bad-args"
+  | [.atom "readfrag", t, i, u, n, off] =>
+      match Sexp.toNat? n, Sexp.toNat? off with
+      | some n', some o => withPath t i u fun p => "ok " ++ (Sexp.ofBytes (Lgx.Cl.readFragMsg p n' o)).render
+      | _, _ => "bad-args"
+  | [.atom "write", t, i, u, h, c, n, v] =>
+      match handle? h, Sexp.toNat? c, Sexp.toNat? n, Sexp.bytes? v with
+      | some h', some c', some n', some v' =>
+          withPath t i u fun p => "ok " ++ (Sexp.ofBytes (Lgx.Cl.writeMsg p (Lgx.Cl.packedType h' c') n' v')).render
+      | _, _, _, _ => "bad-args"
+  | [.atom "writefrag", t, i, u, h, c, n, off, v] =>
+      match handle? h, Sexp.toNat? c, Sexp.toNat? n, Sexp.toNat? off, Sexp.bytes? v with
+      | some h', some c', some n', some o, some v' =>
+          withPath t i u fun p => "ok " ++ (Sexp.ofBytes (Lgx.Cl.writeFragMsg p (Lgx.Cl.packedType h' c') n' o v')).render
+      | _, _, _, _, _ => "bad-args"
+  | .atom "rmw" :: t :: i :: u :: w :: ops =>
+      match Sexp.toNat? w, bitOps? ops with
+      | some w', some ops' => withPath t i u fun p => "ok " ++ (Sexp.ofBytes (Lgx.Cl.rmwMsg p w' (applyOps ops'))).render
+      | _, _ => "bad-args"
+  | .atom "multi" :: msgs =>
+      match msgs.mapM Sexp.bytes? with
+      | some ms => "ok " ++ (Sexp.ofBytes (Lgx.Cl.multiMsg ms)).render
+      | none => "bad-args"
+  | [.atom "writeseg", cap, t, i, u, h, c] =>
+      match Sexp.toNat? cap, handle? h, Sexp.toNat? c with
+      | some cap', some h', some c' => withPath t i u fun p => s!"ok {Lgx.Cl.writeSegSize cap' p (Lgx.Cl.packedType h' c')}"
+      | _, _, _ => "bad-args"
+  | _ => "bad-args"
+
+/-- k.readreply (b data) code isArray elements : parse_read_reply for an elementary type -/
+def opKReadReply : List Sexp → String
+  | [d, c, a, n] =>
+      match Sexp.bytes? d, Sexp.toNat? c, bool? a, Sexp.toNat? n with
+      | some d', some c', some a', some n' =>
+          match Lgx.Cl.atomicTy c' with
+          | none => "bad-args"
+          | some t =>
+              match Lgx.Cl.parseReadReply d' t a' n' with
+              | .ok v => "ok " ++ v.toSexp.render
+              | .error e => "err " ++ e.render
+      | _, _, _, _ => "bad-args"
   | _ => "bad-args"
 
 end Pycomm
